@@ -209,6 +209,22 @@ def Expr.pure : Expr → Bool
   | .bin op _ a _ b => op != .div && op != .rem && a.pure && b.pure
   | .call _ _ _ => false
 
+/-- no invoke: evaluates, in every world, to a value or to an exception without touching the world -/
+def Expr.nocall : Expr → Bool
+  | .var _ => true
+  | .const _ => true
+  | .un _ _ a => a.nocall
+  | .bin _ _ a _ b => a.nocall && b.nocall
+  | .call _ _ _ => false
+
+/-- `e` is a subexpression of the tree -/
+def Expr.occurs (e : Expr) : Expr → Bool
+  | .var r => e == .var r
+  | .const c => e == .const c
+  | .un op k a => e == .un op k a || e.occurs a
+  | .bin op k1 a k2 b => e == .bin op k1 a k2 b || e.occurs a || e.occurs b
+  | .call f k a => e == .call f k a || e.occurs a
+
 /-- every slot keyed `x` that a `replace(x, _)` reaches still holds the variable `x`
     (so the replacement only overwrites occurrences of `x`) -/
 def Expr.keyed (ps : List Nat) (x : Nat) : Expr → Bool
@@ -240,6 +256,18 @@ def deadAfter (x : Nat) : List Stmt → Bool
 
 def stmtsAfter (ins : Ins) (loc : Int) : List Stmt := (ins.filter (fun e => loc < e.1)).map (·.2)
 
+/-- the instructions that follow evaluate `e` on the same operands before anything else can be observed: they make
+    no call and do not assign a register of `e` up to one that has `e` as a subexpression -/
+def forces (e : Expr) : List Stmt → Bool
+  | [] => false
+  | s :: rest =>
+    s.rhs.nocall &&
+    (e.occurs s.rhs ||
+      (match s with
+       | .assign (some l) _ => !(e.vars.contains l) && forces e rest
+       | .assign none _ => forces e rest
+       | .ret _ _ => false))
+
 def Ins.setAt (ins : Ins) (i : Int) (s : Stmt) : Ins :=
   ins.map fun e => if e.1 == i then (e.1, s) else e
 
@@ -257,19 +285,21 @@ def increasing : List Int → Bool
   | a :: l => l.all (a < ·) && increasing l
 
 /-- The condition under which one change of the pass is justified by `Proof/PropagateSound.lean`:
-    the definition `x := e` at `loc` is live and before `i`; `e` is pure and does not read `x`; no live
+    the definition `x := e` at `loc` is live and before `i`; `e` makes no call and does not read `x`; no live
     instruction in `[loc+1, i)` assigns `x` or a register of `e`; the replacement only overwrites
-    occurrences of `x`; and when the definition is then deleted, `x` is dead after it. -/
+    occurrences of `x`; and when the definition is then deleted, `x` is dead after it and either `e` cannot
+    throw (no `/`, `%`) or the instructions that follow evaluate it before anything can be observed (`forces`). -/
 def safeStep (ps : List Nat) (ins : Ins) (i : Int) (x : Nat) (loc : Int) (e : Expr) (cur : Stmt)
     (removes : Bool) : Bool :=
   ins.at loc == some (.assign (some x) e) && ins.at i == some cur && decide (loc < i) &&
-  e.pure && !(e.vars.contains x) &&
+  e.nocall && !(e.vars.contains x) &&
   (ins.all fun s => !(decide (loc < s.1) && decide (s.1 < i)) ||
     (match s.2.lhs with
      | some l => l != x && !(e.vars.contains l)
      | none => true)) &&
   cur.keyed ps x &&
-  (!removes || deadAfter x (stmtsAfter (ins.setAt i (cur.repl ps x e)) loc)) &&
+  (!removes || (deadAfter x (stmtsAfter (ins.setAt i (cur.repl ps x e)) loc) &&
+                (e.pure || forces e (stmtsAfter (ins.setAt i (cur.repl ps x e)) loc)))) &&
   -- locations are increasing along the list
   increasing (ins.map (·.1))
 
